@@ -291,7 +291,7 @@ int main (int argc, char **argv) {
     }
     pid_t pid = fork ();
     if (pid == 0) {
-      alarm (20);
+      alarm (120);
       run_case (f[0], f[1], f[2], f[3], f[4], f[5], f[6]);
       fflush (stdout);
       _exit (0);
